@@ -13,7 +13,7 @@ import (
 // total), never an infrastructure error. A process in which a step hung is abandoned: what it had observed so far
 // is flushed, the remaining steps of that case are reported as `notrun`, and the process exits with exitHang so
 // that the caller restarts it for the remaining cases.
-const stepTimeout = 2 * time.Second
+const stepTimeout = 1 * time.Second
 const exitHang = 3
 
 // watch runs f; ok = false when it did not return in time
